@@ -27,12 +27,15 @@ func (e *Engine) dataDecl() string {
 		fmt.Fprintf(&sb, " (data_f%d %s)", i, compSort(c))
 	}
 	sb.WriteString("))))\n")
-	// data_ext d0 d1: d1 extends d0 -- every object allocated in d0 has the same contents in d1
+	// data_ext d0 d1: d1 extends d0 -- every object allocated in d0 has the same contents in d1,
+	// except the struct cells of objects hosting a top-level message (Sign1Message, SignMessage):
+	// no header value's encoding depends on those (assumption: no cyclic message structures)
+	sb.WriteString("(declare-fun is_msg_obj (Int) Bool)\n")
 	sb.WriteString("(define-fun data_ext ((d0 Data) (d1 Data)) Bool (and (<= (data_alloc d0) (data_alloc d1))")
 	for i, c := range e.dataComps {
 		f := fmt.Sprintf("data_f%d", i)
 		if strings.HasPrefix(c, "H:") {
-			fmt.Fprintf(&sb, " (forall ((a Addr)) (! (=> (< (aobj a) (data_alloc d0)) (= (select (%s d1) a) (select (%s d0) a))) :pattern ((select (%s d1) a))))", f, f, f)
+			fmt.Fprintf(&sb, " (forall ((a Addr)) (! (=> (and (< (aobj a) (data_alloc d0)) (not (is_msg_obj (aobj a)))) (= (select (%s d1) a) (select (%s d0) a))) :pattern ((select (%s d1) a))))", f, f, f)
 		} else {
 			fmt.Fprintf(&sb, " (forall ((i Int)) (! (=> (< i (data_alloc d0)) (= (select (%s d1) i) (select (%s d0) i))) :pattern ((select (%s d1) i))))", f, f, f)
 		}
